@@ -4,6 +4,7 @@ import (
 	"bytes"
 	"errors"
 	"fmt"
+	"sort"
 
 	"github.com/massnetorg/mass-core/blockchain"
 	"github.com/massnetorg/mass-core/debug"
@@ -156,6 +157,28 @@ func (s *TxStore) updateMinedBalance(tx mwdb.DBTransaction,
 		}
 		allBalances[rel.WalletId] = newBal
 	}
+	return nil
+}
+
+// sortByBlockPosition orders the transactions of a block record by their position
+// in the block (offset of the transaction in the stored block). Transactions whose
+// record cannot be read keep their relative order in front.
+func sortByBlockPosition(nsTxRecords mwdb.Bucket, blk *blockRecord) error {
+	pos := make(map[wire.Hash]int, len(blk.transactions))
+	for i := range blk.transactions {
+		txHash := &blk.transactions[i]
+		recVal, err := nsTxRecords.Get(keyTxRecord(txHash, &blk.BlockMeta))
+		if err != nil {
+			return err
+		}
+		pos[*txHash] = -1
+		if _, txLoc, err := readTxRecordLoc(recVal); err == nil {
+			pos[*txHash] = txLoc.TxStart
+		}
+	}
+	sort.SliceStable(blk.transactions, func(a, b int) bool {
+		return pos[blk.transactions[a]] < pos[blk.transactions[b]]
+	})
 	return nil
 }
 
@@ -698,6 +721,15 @@ func (s *TxStore) Rollback(tx mwdb.DBTransaction, height uint64) error {
 		}
 
 		heightsToRemove = append(heightsToRemove, rbBlock.Height)
+
+		// A transaction may spend an output of an earlier transaction of the same
+		// block, so the block is undone in reverse block order. The record lists
+		// the transactions in the order they were recorded, which is the block
+		// order only while every wallet watched the block live: a later import
+		// appends what it finds to the records of blocks that already have one.
+		if err := sortByBlockPosition(nsTxRecords, rbBlock); err != nil {
+			return err
+		}
 
 		for i := len(rbBlock.transactions) - 1; i >= 0; i-- {
 			txHash := &rbBlock.transactions[i]
